@@ -117,3 +117,6 @@ def run_shard(spec):
 
 def replay(doc):
     return pool_checks.replay(__import__(MOD, fromlist=["x"]), doc)
+
+
+RULE += " Also (waves 8-9): chunk sizes given as sys.maxsize / 2**100 / infinity; one base with more workers than chunks run with the library's own warnings turned into errors."
